@@ -364,32 +364,55 @@ def _wrapper(e):
     return None
 
 
-def edges(e, acc=None):
+def edges(e, acc=None, inner=None):
     """(parent kind, child position, child kind) for every composite child; position
     is '*' under the operand-sorting Sum / Product.  An operand reached through wrappers
     (x**1, one-child Sum / Product) is one edge parent -> 'Wrapper:...:kind of the operand'
-    (a wrapped leaf / -1 included: Product((-1,)) is 'Product1:NegConst')."""
+    (a wrapped leaf / -1 included: Product((-1,)) is 'Product1:NegConst').  A one-child
+    n-ary wrapper is also the parent of what it wraps: those edges go to `inner` (used to
+    recognise a listed pattern below wrappers, never to name a new one)."""
     acc = [] if acc is None else acc
+    inner = [] if inner is None else inner
     if _kind(e) == "Power1":          # x**1 is printed as x: transparent
-        return edges(e["a"], acc)
+        return edges(e["a"], acc, inner)
     for pos, k in _kids(e):
         if not isinstance(k, dict):
             continue
         if pos == "1" and _is_negprod(e):
             continue
-        via = []
+        chain = []
         w = _wrapper(k)
         while w is not None:          # the parent sees the wrapper, the text shows the operand
-            if not via or via[-1] != w[0]:
-                via.append(w[0])
+            chain.append((w[0], k))
             k = w[1]
             w = _wrapper(k)
-        if k["t"] not in _LEAF or _kind(k) == "NegConst" or [v for v in via if v != "Power1"]:
-            p = e["t"]
-            acc.append((_kind(e), "*" if p in _COMMUTATIVE else pos,
+
+        def label(ch):
+            via = []
+            for name, _n in ch:
+                if not via or via[-1] != name:
+                    via.append(name)
+            return via
+
+        def notable(via):
+            return k["t"] not in _LEAF or _kind(k) == "NegConst" or [v for v in via if v != "Power1"]
+        via = label(chain)
+        if notable(via):
+            acc.append((_kind(e), "*" if e["t"] in _COMMUTATIVE else pos,
                         "".join(v + ":" for v in via) + _kind(k)))
-        edges(k, acc)
+        for i, (name, node) in enumerate(chain):
+            rest = label(chain[i + 1:])
+            if name != "Power1" and not _is_negprod(node) and notable(rest):
+                inner.append((_kind(node), "*" if node["t"] in _COMMUTATIVE else "1",
+                              "".join(v + ":" for v in rest) + _kind(k)))
+        edges(k, acc, inner)
     return acc
+
+
+def inner_edges(e):
+    inner = []
+    edges(e, None, inner)
+    return inner
 
 
 def signature(tree, clause, known_keys, rep="py"):
@@ -411,12 +434,16 @@ def _signature(tree, clause, known_keys):
     if not es:
         return {"clause": clause, "root": _kind(tree)}
     cands = [{"clause": clause, "parent": p, "pos": pos, "child": c} for p, pos, c in es]
-    for c in cands:
+    # a listed pattern is recognised below one-child wrappers as well (Sum((Product((-1,)),))
+    # under any parent is the listed Sum over Product((-1,)))
+    below = [{"clause": clause, "parent": p, "pos": pos, "child": c}
+             for p, pos, c in sorted(set(inner_edges(tree)))]
+    for c in cands + below:
         if kit.sig_key(c) in known_keys:
             return c
     # a listed mis-parenthesised edge may surface under another clause (a double
     # reaching % is a compile error, not a wrong value): same finding
-    for c in cands:
+    for c in cands + below:
         for k in known_keys:
             kk = json.loads(k)
             if all(kk.get(f) == c[f] for f in ("parent", "pos", "child")):
